@@ -71,7 +71,7 @@ Proof.
                          (set_nth (threads st) t (mkT [IPass] (hdrs th) (regs th) (todo th) (out th)))) < steps_left prog st)%nat).
       { apply (put_lt st t th); [exact Hn|]. unfold work. cbn [code todo].
         rewrite Hc, !cw_cons. cbn [iw]. change (cw []) with 0%nat. lia. }
-      right. destruct (ctr st); [destruct (key_in hdr_test_key (hdrs th))|]; auto.
+      right. destruct (ctr st); [destruct (supplied_test (hdrs th))|]; auto.
     + destruct (lock st); [left; reflexivity|right; apply Hstep].
     + right. destruct (lock st); [apply Hstep|exact Hdie].
     + right. destruct (ctr st); [apply Hstep|exact Hdie].
